@@ -173,15 +173,19 @@ PROPS = {
         'not_covered': ['"n consecutive sends reach n different peers" is a corollary of the queue postcondition (chosen peer goes to the back) for a duplicate-free queue; duplicate-freedom is established by peer_connected pushing each identity once and is not re-proved as a global invariant'],
     },
     'C14': {
-        'units': ['reqrep', 'routing'],
+        'units': ['reqrep', 'routing', 'fairqueue'],
         'scope': [
+            # the queue every fair-queue based recv awaits: all state lives in the queue, Pending registers the current waker
+            ('fairqueue', r'^FairQueue::poll_next$|^QueueInner::(insert|remove)$', A, None),
             ('reqrep', r'^ReqSocket::recv$', {'assert'}, None),
             ('reqrep', r'^RepSocket::recv$', {'assert', 'inv-entry', 'inv-end'}, None),
             ('routing', r'^(RouterSocket|DealerSocket|PullSocket)::recv$', {'assert', 'inv-entry', 'inv-end'}, None),
         ],
         'kani': {},
         'assumptions': [
-            'FairQueue::next, FramedRead::next and scc get_async are themselves cancel-safe (state lives in the queue / reader, not in the future): NOT verified',
+            'FramedRead::next and scc get_async are themselves cancel-safe (state lives in the reader / map, not in the future): NOT verified',
+            'FairQueue::poll_next is verified in SEQUENTIAL scope only (Arc<Mutex<..>> as owned data, one poll at a time): on Pending the current waker is registered and the ready heap is empty; a checked-out stream is put back unless it ended; an item is labelled with the key of its stream. Wake-ups from other threads, lock hand-over and fairness are not modelled (C05/C06 not applicable)',
+            'fairqueue unit: the std Clone trait is shadowed by a stand-in whose contract is "a clone equals the original" (assumption on the key type), `io_stream.as_mut().poll_next(&mut cx)` is an assumed expression (Pin::as_mut), BinaryHeap is a bag, AtomicUsize tickets are arbitrary',
             'cancellation points are exactly the `.await`s (D2 removes them; the await-invariant is asserted immediately before the statement that contained each one)',
         ],
         'not_covered': ['SubSocket::recv, XPubSocket::recv, proxy()', 'the decoder half (partial frames survive a dropped read) is C02'],
